@@ -127,10 +127,15 @@ CLAIMED = {
              "would end or corrupt an unquoted value; '--' in comments and '</' in raw text are reported). Proved as well (C08b): text written by the "
              "serializer in the data state (escape s, any s without NUL/CR) is re-tokenised by the WHATWG spec tokenizer to "
              "exactly the text s — the macro-step lemmas for plain characters and for &amp; &lt; &gt; through the "
-             "character-reference states, induction with fuel, and canon. The remaining token kinds (tags, attributes, raw "
-             "text, comments, doctype) are decided by search: the real output is re-tokenised by the independent WHATWG "
-             "tokenizer spec driven by the known element context and compared with the tokens given; failing streams are "
-             "shrunk and classified (partial: the re-tokenisation theorem is not proved).",
+             "character-reference states, induction with fuel, and canon. Proved as well (C08c, 185 theorems): quoted and "
+             "unquoted attribute values, whole start tags with attribute lists (all solidus forms), end tags, comments and "
+             "doctypes (name, PUBLIC/SYSTEM identifiers) written by the model re-tokenise through the WHATWG spec tokenizer to "
+             "exactly the token given, under explicit decidable well-formedness predicates each shown necessary by a kernel "
+             "counter-example; C08_stream_roundtrip composes them for any stream of such tokens outside raw-text/RCDATA "
+             "elements (no serializer error, tokenize(output) = the stream). Raw-text/RCDATA element content, foreign "
+             "content and the option-dependent cases are decided by search: the real output is re-tokenised by the "
+             "independent WHATWG tokenizer spec driven by the known element context and compared with the tokens given; "
+             "failing streams are shrunk and classified.",
         note="Lean kernel; standard axioms; H5.Spec.Tokenizer written from the standard from memory; lexical.py plan.",
         technique="Lean 4 model + escaping lemmas; differential correspondence; retokenisation oracle with shrinking",
         design="6/C08"),
@@ -160,13 +165,20 @@ CLAIMED = {
         technique="differential correspondence with explicit-exception Lean model + totality search on the real code",
         design="6/C03"),
     "C04": dict(
-        category="translation_validation",
-        text="The real etree, etree(fullTree) and dom builders are compared on the same inputs (namespacing on/off, "
-             "document/fragment) by direct traversal, and both are compared with the single arena model H5.Model.Dom / "
-             "TreeBuilder (intended common semantics). Proved: the abstraction's text normal form (no adjacent/empty text) "
-             "and the attribute-dict laws it uses. The per-backend representations are not modelled separately.",
-        note="search on the real code; common arena model tied to both back ends by correspondence.",
-        technique="cross-backend differential on the real code + correspondence with a common Lean model",
+        category="proof",
+        text="The two back ends are modelled separately in Lean (H5.Model.Backend.ETree: wrapper + element state with text/tail, "
+             "H5.Model.Backend.MiniDom: minidom nodes with the _attrs/_attrsNS double index, auto-detach, doctype handling) and "
+             "tied to the real classes by primitive-level scripts (ops prims:etree, prims:dom). Proved (C04b, 175 theorems): for "
+             "every Node primitive the tree builder uses (appendChild, insertText in its three forms, insertBefore, removeChild, "
+             "reparentChildren, cloneNode, setAttributes, hasContent, element/comment/doctype creation, getFragment, fullTree) — "
+             "representation invariants of both back ends and the simulation relation are preserved under explicit "
+             "preconditions, and the simulation implies equal abstract trees (C04_abs_eq_of_sim), i.e. both back ends build the "
+             "same tree for any sequence of primitive calls inside the preconditions; six kernel witnesses show what happens "
+             "outside them (incl. the recorded minidom attribute collision). That the PARSER stays inside the preconditions is "
+             "checked by instrumented real parses (0 calls outside), not proved. The real etree, etree(fullTree) and dom builders "
+             "are also compared end to end (namespacing on/off, document/fragment) and with the common arena model.",
+        note="per-primitive refinement proofs; parser-stays-inside-preconditions is observed, not proved.",
+        technique="Lean 4 refinement proofs per back-end primitive + primitive-script correspondence + cross-backend differential on the real code",
         design="6/C04"),
     "C05": dict(
         category="proof",
@@ -205,8 +217,13 @@ CLAIMED = {
              "write-before-read) and reset re-creates the phase objects. Those side conditions are decided in the kernel on "
              "attribute lists extracted from the AST of html5parser.py / treebuilders on every run (parser, tree builder, "
              "phase objects), so a forgotten reset breaks the obligation. Memo tables: any interleaving of atomic lookups "
-             "returns f(k). The conclusion is checked on the real objects by histories with aborts at every read / strict "
-             "ParseError, serializer and walker reuse, threads, and (thorough) a fresh interpreter.",
+             "returns f(k). Threads: C12_interleave — under ANY schedule of two independent parsers whose steps write private "
+             "state only, what one thread computes equals what its steps compute alone; the side condition is the obligation "
+             "C12_shared_readonly/C12_trie_readonly on the extracted list of writes to objects shared process-wide (classes "
+             "instantiated at module level or in class bodies: dispatch tables, entity trie). The conclusion is checked on the "
+             "real objects by histories with aborts at every read / strict ParseError, serializer and walker reuse, free-running "
+             "threads, deterministic single-preemption schedules (thread A stopped at every entry into shared-class code while "
+             "B parses), and (thorough) a fresh interpreter.",
         note="abstract model; AST extraction of attribute writes; CPython dict atomicity assumed for the thread clause.",
         technique="Lean 4 proof (parametric reset theorem + kernel-decided extracted tables) + history search on real objects",
         design="6/C12"),
